@@ -129,6 +129,9 @@ def run(ctx):
     o = ordr.FuncORD(fi, params)
     sites = o.run()
     ctx.count('ord_functions')
+    if fq == 'midi_io:note_sequence_to_pretty_midi':
+      from sa import pmfacts
+      ordr.instrument_order(ctx, fi, o, 'ORD/traversal/instrument-order', pmfacts.PMFacts().write_keeps_instrument_order())
     for s in sites:
       if s.kind == 'sorted-traversal':
         ctx.ob('ORD/sorted-traversal', fi, s.stmt, True, 'iterates %s' % s.prov.detail, construct=s.what)
@@ -143,7 +146,7 @@ def run(ctx):
       rule = 'ORD/traversal' if s.kind == 'traversal' else 'ORD/positional'
       if reasons:
         ctx.ob(rule, fi, s.stmt if s.kind == 'traversal' else s.node, False,
-               '; '.join(reasons) + ' [provenance: storage order of %s]' % s.prov.detail, construct=s.what)
+               '; '.join(reasons) + ' [provenance: storage order of %s]' % s.prov.detail, construct=s.what, unknown=ordr.undecided_reason(s, reasons))
       else:
         ctx.ob(rule, fi, s.stmt if s.kind == 'traversal' else s.node, True,
                why_ok or ('storage-order traversal of %s with an order-insensitive body' % s.prov.detail
